@@ -348,8 +348,20 @@ package stdlib
 //@   params (s, old, new)
 //@   pure
 //@   ensures result == str_replace_all(s, old, new)
+// {csv a b c}: every argument's encoded field, in order, with a comma between consecutive fields
+// and none at the end (csv_enc(s) names the field csvItemEncode returns for s; csv_to(.., n, len)
+// is the text after n of len fields)
+//@ smt
+//@ (declare-fun csv_enc (Str) Str)
+//@ (define-fun-rec csv_to ((cv!a (Array Int Int)) (cv!o Int) (cv!c Int) (cv!n Int) (cv!len Int) (cv!comma Str) (cv!emp Str)) Str
+//@   (ite (<= cv!n 0) cv!emp (scat (scat (csv_to cv!a cv!o cv!c (- cv!n 1) cv!len cv!comma cv!emp) (csv_enc (app (select cv!a (+ cv!o (- cv!n 1))) cv!c))) (ite (< cv!n cv!len) cv!comma cv!emp))))
+//@ end
+//@ func kfCsv$1
+//@   ensures [row] result == csv_to(arr(*args), off(*args), context, len(*args), len(*args), ",", "")
+//@   loop 1 invariant 0 <= i && i <= len(*args) && sb_content(addrof(sb)) == csv_to(arr(*args), off(*args), context, i, len(*args), ",", "")
 //@ func csvItemEncode
 //@   pure
+//@   ensures [assumed-name] result == csv_enc(s)
 //@   ensures [quote] str_contains_any(s, "\"\r\n") ==> result == "\"" + str_replace_all(s, "\"", "\"\"") + "\""
 //@   ensures [comma] !str_contains_any(s, "\"\r\n") && str_contains(s, ",") ==> result == "\"" + s + "\""
 //@   ensures [plain] !str_contains_any(s, "\"\r\n") && !str_contains(s, ",") ==> result == s
@@ -627,6 +639,25 @@ package stdlib
 //@ func kfDownscale$1
 //@   ensures [bad-type] !int_ok(app((*args)[0], context)) ==> result == "<BAD-TYPE>"
 //@   assert at "return humanize.AlwaysDownscale(" : $arg0 == atoi(app((*args)[0], context)) && $arg1 == *precision
+// bytesize / bytesizesi: the value handed to the unit scaler is the unsigned value of the argument
+//@ smt
+//@ (declare-fun uint_ok (Str) Bool)
+//@ (declare-fun atou (Str) Int)
+//@ end
+//@ extern strconv.ParseUint
+//@   params (s, base, bitSize)
+//@   results (u, err)
+//@   pure
+//@   ensures base == 10 && bitSize == 64 ==> (err == nil) == uint_ok(s)
+//@   ensures base == 10 && bitSize == 64 && err == nil ==> u == atou(s)
+//@ func kfBytesize$1
+//@   ensures [bad-type] !uint_ok(app((*args)[0], context)) ==> result == "<BAD-TYPE>"
+//@   assert at "return humanize.AlwaysByteSize(" : $arg0 == atou(app((*args)[0], context)) && $arg1 == *precision
+//@ func kfBytesizeSi$1
+//@   ensures [bad-type] !uint_ok(app((*args)[0], context)) ==> result == "<BAD-TYPE>"
+//@   assert at "return humanize.AlwaysByteSizeSi(" : $arg0 == atou(app((*args)[0], context)) && $arg1 == *precision
+//@ func kfExpBucket$1
+//@   ensures [bad-type] !int_ok(app((*args)[0], context)) ==> result == "<BAD-TYPE>"
 // percent: (val - min) * 100 / (max - min) with the configured number of decimals
 //@ func kfPercent$1
 //@   ensures [bad-type] tokf(*stageMin, context) && tokf(*stageMax, context) && !float_ok(app((*args)[0], context)) ==> result == "<BAD-TYPE>"
